@@ -310,6 +310,16 @@ Abandon(t) ==
     /\ UNCHANGED <<g, tip, mined, lease, now>>
     /\ Step("Abandon", [t |-> t], "ok")
 
+(* The abandon of a transaction the store no longer knows is delivered again  *)
+(* (C01: "including repeated delivery of the same event"): nothing changes.  *)
+(* Explored where it could matter - another unconfirmed transaction spends   *)
+(* one of the same outputs.                                                  *)
+AbandonAgain(t) ==
+    /\ ~IsCb(t) /\ t \notin Known
+    /\ \E u \in unm : Ins(u) \cap Ins(t) # {}
+    /\ UNCHANGED <<g, tip, mined, unm, cred, lease, now, rb>>
+    /\ Step("Abandon", [t |-> t], "ok")
+
 (* Leases.  An output is "known" for leasing when it is credited, its        *)
 (* transaction is known and no confirmed transaction spends it; the case     *)
 (* credited-but-confirmed-spent is left out (the property is silent).        *)
@@ -361,7 +371,7 @@ LeaseNext ==
     \/ Tick
 
 ChainNext ==
-    \/ \E t \in Tx : SeeUnmined(t) \/ Confirm(t) \/ Abandon(t)
+    \/ \E t \in Tx : SeeUnmined(t) \/ Confirm(t) \/ Abandon(t) \/ AbandonAgain(t)
     \/ NewBlock
     \/ \E h \in 1..(MaxTip+1) : Rollback(h)
 
